@@ -1,7 +1,324 @@
-(* C01 - signed exchanges; placeholder until the proofs land. *)
-From WP Require Import Base.Prelude Model.Sxg.
+(* C01 - Whenever verification of a signed exchange succeeds at time t, the
+   request URL, status, response headers (plus method and request headers in
+   versions b1/b2) and the payload handed back are bit-for-bit the ones over
+   which the certificate's private key produced the signature, and t lies inside
+   the signed [date, expires] window.  Consequently no modification that changes
+   any of these can make verification succeed.
+
+   Model: Model/Sxg.v (signedexchange.go, signer.go, verifier.go).  SHA-256, the
+   X.509 parser, signature verification, the status table and certificate
+   fetching are parameters; nothing is assumed about them except, where stated,
+   (Hlen) SHA-256 outputs are 32 bytes long and (Unforgeable) a signature the
+   oracle accepts under key kid on message m was produced by the holder of kid.
+   Payload integrity is "or SHA-256 collides" (explicit [Collision]).
+
+   Size side conditions ([esized], [params_ok]) are explicit: Go's encoders
+   truncate lengths and integers that do not fit 64 bits, and the b2/b3 layout
+   writes cert-sha256 without a length, so it must be 32 bytes long
+   (signed_message_cert_sha_len_refuted shows that this cannot be dropped).      *)
+From Coq Require Import Lia Permutation.
+From WP Require Import Base.Prelude Base.Sha256 Model.Cbor Model.Http Model.Mice Model.StructHdr
+                       Model.CertChain Model.Sxg.
+From WP Require Import Spec.Mice Spec.SxgPolicy.
+From WP Require Import Proofs.SxgVerifyMsg Proofs.SxgVerifySound Proofs.SxgVerifyExample.
 Open Scope N_scope.
 
-Theorem c01_smoke : from_magic (header_magic V1b3) = Some V1b3.
+(* ---- (1) the signed message determines the signed fields ------------------------- *)
+(* [sfields], [fields_of]: version, cert-sha256, validity-url, date, expires,
+   request URL, method and request header map (b1/b2), status, response header
+   map; header maps are finite maps lower-cased name -> comma-joined value:
+   [sf_equiv] compares them up to Permutation, [sf_map] says no name occurs
+   twice. *)
+Theorem C01_signed_message_injective :
+  forall (e e' : exchange) (cs cs' : option bytes) (v v' : bytes) (d x d' x' : Z) (m : bytes),
+    esized e -> esized e' ->
+    params_ok (e_ver e) cs v d x -> params_ok (e_ver e') cs' v' d' x' ->
+    signed_message e cs v d x = Ok m -> signed_message e' cs' v' d' x' = Ok m ->
+    sf_equiv (fields_of e cs v d x) (fields_of e' cs' v' d' x') /\
+    sf_map (fields_of e cs v d x) /\ sf_map (fields_of e' cs' v' d' x').
+Proof. exact signed_message_injective. Qed.
+Print Assumptions C01_signed_message_injective.
+
+(* the version is part of the message (context string): no side condition *)
+Theorem C01_signed_message_version :
+  forall (e e' : exchange) (cs cs' : option bytes) (v v' : bytes) (d x d' x' : Z) (m : bytes),
+    signed_message e cs v d x = Ok m -> signed_message e' cs' v' d' x' = Ok m ->
+    e_ver e = e_ver e'.
+Proof. exact signed_message_version. Qed.
+Print Assumptions C01_signed_message_version.
+
+(* the exact shape of the side conditions *)
+Example C01_params_ok_b1 cs v d x :
+  params_ok V1b1 cs v d x <->
+  (match cs with Some c => lenN c < two64 | None => True end /\
+   lenN v < two64 /\ i64 d /\ i64 x).
 Proof. reflexivity. Qed.
-Print Assumptions c01_smoke.
+Example C01_params_ok_b3 cs v d x :
+  params_ok V1b3 cs v d x <->
+  (match cs with Some c => lenN c = 32 | None => lenN v < 2 ^ 56 end /\
+   lenN v < two64 /\ (d < Z.of_N two64)%Z /\ (x < Z.of_N two64)%Z).
+Proof. reflexivity. Qed.
+
+(* b2/b3 without |cert-sha256| = 32: two different (cert-sha256, validity-url)
+   pairs with the same message.  (Exchange.Verify always passes a SHA-256
+   output, so this is about what a signer may be made to sign.) *)
+Definition w24 : bytes := s2b "https://a.example/valid/".
+Theorem C01_signed_message_cert_sha_len_refuted :
+  exists (e : exchange) (cs cs' : option bytes) (v v' : bytes) (d x : Z) (m : bytes),
+    esized e /\
+    signed_message e cs v d x = Ok m /\ signed_message e cs' v' d x = Ok m /\
+    params_ok (e_ver e) cs' v' d x /\ cs <> cs' /\ v <> v'.
+Proof.
+  exists (plain V1b3 200 std_headers []), (Some []), (Some (be 8 32 ++ w24)),
+         (w24 ++ [0; 0; 0; 0; 0; 0; 0; 0]), [], toy_date, toy_expires.
+  eexists. split; [|split; [vm_compute; reflexivity|split; [vm_compute; reflexivity|]]].
+  - unfold esized, hsized, i64. cbn [plain e_uri e_method e_status e_reqh e_resph].
+    repeat split; try (vm_compute; reflexivity); try (vm_compute; discriminate);
+      repeat constructor; vm_compute; reflexivity.
+  - split; [|split; discriminate]. vm_compute. repeat split; reflexivity.
+Qed.
+Print Assumptions C01_signed_message_cert_sha_len_refuted.
+
+(* ---- (2) the header CBOR determines method / :url / status / header maps ---------- *)
+Theorem C01_headers_cbor_injective :
+  forall (e e' : exchange) (bs : bytes),
+    e_ver e = e_ver e' -> esized e -> esized e' ->
+    encode_exchange_headers e = Ok bs -> encode_exchange_headers e' = Ok bs ->
+    ((has_request (e_ver e) = true ->
+        e_method e = e_method e' /\ Permutation (hraw (e_reqh e)) (hraw (e_reqh e'))) /\
+     (e_ver e = V1b1 -> e_uri e = e_uri e') /\
+     e_status e = e_status e' /\ Permutation (hraw (e_resph e)) (hraw (e_resph e'))) /\
+    hdr_nodup e /\ hdr_nodup e'.
+Proof. exact headers_cbor_injective. Qed.
+Print Assumptions C01_headers_cbor_injective.
+
+(* ... and is prefix-free (what makes the b1 map parse uniquely) *)
+Theorem C01_headers_cbor_prefix_free :
+  forall (e e' : exchange) (bs bs' r r' : bytes),
+    e_ver e = e_ver e' -> esized e -> esized e' ->
+    encode_exchange_headers e = Ok bs -> encode_exchange_headers e' = Ok bs' ->
+    bs ++ r = bs' ++ r' -> hdr_equiv e e' /\ hdr_nodup e /\ hdr_nodup e' /\ r = r'.
+Proof. exact headers_cbor_prefix_free. Qed.
+Print Assumptions C01_headers_cbor_prefix_free.
+
+(* across versions the header bytes alone do not tell b1's ":url" entry from a
+   b2 request header called ":url" (the version is bound by the context string
+   of the signed message, C01_signed_message_version) *)
+Theorem C01_headers_cbor_cross_version_refuted :
+  exists (e e' : exchange) (bs : bytes),
+    encode_exchange_headers e = Ok bs /\ encode_exchange_headers e' = Ok bs /\
+    e_uri e <> e_uri e' /\ hraw (e_reqh e) <> hraw (e_reqh e').
+Proof.
+  exists (plain V1b1 200 std_headers []),
+         (with_uri (with_reqh (plain V1b2 200 std_headers [])
+                              [(s2b ":url", [s2b "https://example.com/index.html"])])
+                   (s2b "https://other.example/")).
+  eexists. split; [vm_compute; reflexivity|split; [vm_compute; reflexivity|]].
+  split; vm_compute; discriminate.
+Qed.
+
+(* ---- (3) what a successful Verify exposes ------------------------------------------- *)
+Theorem C01_verify_sound :
+  forall (H256 : bytes -> bytes) (x509_key : bytes -> option (option N))
+         (sig_ok : N -> bytes -> bytes -> bool) (status_known : Z -> bool) (fetch : bytes -> R bytes)
+         (e : exchange) (tsec tnsec : Z) (p : bytes),
+    verify H256 x509_key sig_ok status_known fetch e tsec tnsec = Valid p ->
+    exists sigs s pi chain main rest kid m,
+      parse_parameterised_list (e_sig e) = Ok sigs /\ In pi sigs /\
+      extract_signature pi = Some s /\
+      fetch (s_cert_url s) = Ok chain /\
+      cc_read (fun der => match x509_key der with Some _ => true | None => false end) chain
+        = Ok (main :: rest) /\
+      x509_key (ac_cert main) = Some (Some kid) /\
+      H256 (ac_cert main) = s_cert_sha s /\
+      signed_message e (Some (H256 (ac_cert main))) (s_validity s) (s_date s) (s_expires s) = Ok m /\
+      sig_ok kid m (s_sig s) = true /\
+      verify_timestamps (s_date s) (s_expires s) tsec tnsec = true /\
+      verify_payload H256 e s = Some p.
+Proof. exact verify_sound. Qed.
+Print Assumptions C01_verify_sound.
+
+(* verifyTimestamps is the window, to the nanosecond: for int64 date/expires
+   (what the Signature parser yields) and a clock within +-2^62 s of the epoch *)
+Theorem C01_verify_timestamps_spec :
+  forall d x tsec tnsec : Z,
+    (- 9223372036854775808 <= d < 9223372036854775808)%Z ->
+    (- 9223372036854775808 <= x < 9223372036854775808)%Z ->
+    (- 4611686018427387904 <= tsec < 4611686018427387904)%Z -> (0 <= tnsec < 1000000000)%Z ->
+    (verify_timestamps d x tsec tnsec = true <->
+     (x - d <= 604800 /\
+      d * 1000000000 <= tsec * 1000000000 + tnsec /\
+      tsec * 1000000000 + tnsec <= x * 1000000000)%Z).
+Proof.
+  intros d x tsec tnsec Hd Hx Ht Hn. apply verify_timestamps_spec; [exact Hd|exact Hx|split; assumption].
+Qed.
+Print Assumptions C01_verify_timestamps_spec.
+
+(* ... and on the exact domain where time.Unix does not wrap, for any date/expires *)
+Theorem C01_verify_timestamps_nowrap :
+  forall d x tsec tnsec : Z,
+    (- 9223372036854775808 <= d + 62135596800 < 9223372036854775808)%Z ->
+    (- 9223372036854775808 <= x + 62135596800 < 9223372036854775808)%Z ->
+    (- 9223372036854775808 <= tsec + 62135596800 < 9223372036854775808)%Z ->
+    (0 <= tnsec < 1000000000)%Z ->
+    (verify_timestamps d x tsec tnsec = true <-> InWindow d x tsec tnsec).
+Proof. exact verify_timestamps_nowrap. Qed.
+Print Assumptions C01_verify_timestamps_nowrap.
+
+(* ---- (4) C01 itself ------------------------------------------------------------------ *)
+Section C01.
+  Variable H256 : bytes -> bytes.
+  Variable x509_key : bytes -> option (option N).
+  Variable sig_ok : N -> bytes -> bytes -> bool.
+  Variable status_known : Z -> bool.
+  Variable fetch : bytes -> R bytes.
+  (* "the holder of key kid signed message m" *)
+  Variable Signed : N -> bytes -> Prop.
+  Hypothesis Unforgeable : forall kid m sg, sig_ok kid m sg = true -> Signed kid m.
+  Hypothesis Hlen : forall x, List.length (H256 x) = 32%nat.
+
+  Theorem C01_verify_binds :
+    forall (e : exchange) (tsec tnsec : Z) (p : bytes),
+      esized e -> lenN (e_sig e) < two64 -> time_ok tsec tnsec ->
+      verify H256 x509_key sig_ok status_known fetch e tsec tnsec = Valid p ->
+      exists kid m s,
+        Signed kid m /\
+        signed_message e (Some (s_cert_sha s)) (s_validity s) (s_date s) (s_expires s) = Ok m /\
+        (* whatever the key holder serialised into m, it is this exchange *)
+        (forall e0 cs v d x,
+            esized e0 -> params_ok (e_ver e0) cs v d x -> signed_message e0 cs v d x = Ok m ->
+            sf_equiv (fields_of e0 cs v d x)
+                     (fields_of e (Some (s_cert_sha s)) (s_validity s) (s_date s) (s_expires s))) /\
+        sf_map (fields_of e (Some (s_cert_sha s)) (s_validity s) (s_date s) (s_expires s)) /\
+        (* t lies in the signed window *)
+        (s_expires s - s_date s <= 604800 /\
+         s_date s * 1000000000 <= tsec * 1000000000 + tnsec /\
+         tsec * 1000000000 + tnsec <= s_expires s * 1000000000)%Z /\
+        (* the payload is the one the signed digest entry commits to *)
+        (exists dg top,
+            In (lower (canonical_key (digest_field_of (e_ver e))), dg) (hraw (e_resph e)) /\
+            parse_digest_header (mice_draft_of (e_ver e)) dg = Ok top /\
+            forall recs, Commits H256 top recs -> p = List.concat recs \/ Collision H256).
+  Proof. exact (verify_binds H256 x509_key sig_ok status_known fetch Signed Unforgeable Hlen). Qed.
+
+  Theorem C01_tamper_rejected :
+    forall (e e' : exchange) (cs : option bytes) (v : bytes) (d x : Z) (m0 : bytes)
+           (tsec tnsec : Z) (p : bytes),
+      (* the key holder signed one message only: that of exchange e *)
+      (forall kid m', Signed kid m' -> m' = m0) ->
+      signed_message e cs v d x = Ok m0 -> esized e -> params_ok (e_ver e) cs v d x ->
+      esized e' -> lenN (e_sig e') < two64 -> time_ok tsec tnsec ->
+      verify H256 x509_key sig_ok status_known fetch e' tsec tnsec = Valid p ->
+      exists s,
+        sf_equiv (fields_of e cs v d x)
+                 (fields_of e' (Some (s_cert_sha s)) (s_validity s) (s_date s) (s_expires s)) /\
+        (forall dg top recs,
+            In (lower (canonical_key (digest_field_of (e_ver e))), dg) (hraw (e_resph e)) ->
+            parse_digest_header (mice_draft_of (e_ver e)) dg = Ok top ->
+            Commits H256 top recs -> p = List.concat recs \/ Collision H256).
+  Proof. exact (tamper_rejected H256 x509_key sig_ok status_known fetch Signed Unforgeable Hlen). Qed.
+
+  (* contrapositive: an exchange differing from e in any signed field, under
+     whatever Signature header, does not verify *)
+  Corollary C01_tamper_rejected_fields :
+    forall (e e' : exchange) (cs : option bytes) (v : bytes) (d x : Z) (m0 : bytes)
+           (tsec tnsec : Z) (p : bytes),
+      (forall kid m', Signed kid m' -> m' = m0) ->
+      signed_message e cs v d x = Ok m0 -> esized e -> params_ok (e_ver e) cs v d x ->
+      esized e' -> lenN (e_sig e') < two64 -> time_ok tsec tnsec ->
+      (forall s, ~ sf_equiv (fields_of e cs v d x)
+                    (fields_of e' (Some (s_cert_sha s)) (s_validity s) (s_date s) (s_expires s))) ->
+      verify H256 x509_key sig_ok status_known fetch e' tsec tnsec <> Valid p.
+  Proof. exact (tamper_rejected_fields H256 x509_key sig_ok status_known fetch Signed Unforgeable Hlen). Qed.
+End C01.
+Print Assumptions C01_verify_binds.
+Print Assumptions C01_tamper_rejected.
+Print Assumptions C01_tamper_rejected_fields.
+
+(* ---- (5) the hypotheses are satisfiable: concrete exchanges, SHA-256 ----------------- *)
+(* toy oracles of Proofs/SxgVerifyExample.v: key id = first certificate byte,
+   signature of m under kid = sha256 (kid :: m) *)
+Example ex3_verifies : toy_verify ex3 toy_date 0 = Valid toy_body.
+Proof. vm_compute. reflexivity. Qed.
+Example ex2_verifies : toy_verify ex2 toy_date 0 = Valid toy_body.
+Proof. vm_compute. reflexivity. Qed.
+Example ex1_verifies : toy_verify ex1 toy_date 0 = Valid toy_body.
+Proof. vm_compute. reflexivity. Qed.
+
+Example ex_versions : (e_ver ex1, e_ver ex2, e_ver ex3) = (V1b1, V1b2, V1b3).
+Proof. reflexivity. Qed.
+
+(* sizes *)
+Lemma ex_sized : esized ex1 /\ esized ex2 /\ esized ex3.
+Proof.
+  unfold esized, hsized, i64.
+  repeat split; try (vm_compute; reflexivity); try (vm_compute; discriminate);
+    repeat constructor; vm_compute; reflexivity.
+Qed.
+Example ex_sig_sized : lenN (e_sig ex1) < two64 /\ lenN (e_sig ex2) < two64 /\ lenN (e_sig ex3) < two64.
+Proof. repeat split; vm_compute; reflexivity. Qed.
+Example ex_time_ok : time_ok toy_date 0.
+Proof. unfold time_ok, toy_date. lia. Qed.
+
+(* a hash with provably 32-byte outputs that computes SHA-256 *)
+Definition h32 (x : bytes) : bytes := firstn 32 (sha256 x ++ repeat 0 32).
+Lemma h32_len x : List.length (h32 x) = 32%nat.
+Proof.
+  unfold h32. rewrite firstn_length, app_length, repeat_length. lia.
+Qed.
+Definition toy_signed (kid : N) (m : bytes) : Prop := exists sg, toy_sig_ok kid m sg = true.
+Lemma toy_unforgeable kid m sg : toy_sig_ok kid m sg = true -> toy_signed kid m.
+Proof. intros H. exists sg. exact H. Qed.
+Example ex3_verifies_h32 : verify h32 toy_x509 toy_sig_ok toy_status toy_fetch ex3 toy_date 0 = Valid toy_body.
+Proof. vm_compute. reflexivity. Qed.
+
+(* verify_binds applies to ex3: all its premises hold together *)
+Example ex3_binds :
+  exists kid m s,
+    toy_signed kid m /\
+    signed_message ex3 (Some (s_cert_sha s)) (s_validity s) (s_date s) (s_expires s) = Ok m /\
+    (s_date s * 1000000000 <= toy_date * 1000000000 + 0 <= s_expires s * 1000000000)%Z.
+Proof.
+  destruct (C01_verify_binds h32 toy_x509 toy_sig_ok toy_status toy_fetch toy_signed toy_unforgeable h32_len
+              ex3 toy_date 0 toy_body (proj2 (proj2 ex_sized)) (proj2 (proj2 ex_sig_sized)) ex_time_ok
+              ex3_verifies_h32) as (kid & m & s & Sg & Hm & _ & _ & Hw & _).
+  exists kid, m, s. split; [exact Sg|]. split; [exact Hm|]. lia.
+Qed.
+
+(* tampering: each of these differs from ex3 in one signed field, or in the
+   payload, or in the time, and is refused *)
+Example tamper_payload_byte :
+  toy_verify (with_payload ex3 (firstn 20 (e_payload ex3) ++ [N.lxor (nth 20 (e_payload ex3) 0) 1]
+                                 ++ skipn 21 (e_payload ex3))) toy_date 0 = Invalid.
+Proof. vm_compute. reflexivity. Qed.
+Example tamper_payload_truncated :
+  toy_verify (with_payload ex3 (firstn 60 (e_payload ex3))) toy_date 0 = Invalid.
+Proof. vm_compute. reflexivity. Qed.
+Example tamper_status : toy_verify (with_status ex3 404) toy_date 0 = Invalid.
+Proof. vm_compute. reflexivity. Qed.
+Example tamper_url :
+  toy_verify (with_uri ex3 (s2b "https://example.com/other.html")) toy_date 0 = Invalid.
+Proof. vm_compute. reflexivity. Qed.
+Example tamper_response_header :
+  toy_verify (with_resph ex3 (hdr_add (e_resph ex3) (s2b "X-Injected") (s2b "1"))) toy_date 0 = Invalid.
+Proof. vm_compute. reflexivity. Qed.
+Example tamper_method_b2 : toy_verify (with_method ex2 (s2b "HEAD")) toy_date 0 = Invalid.
+Proof. vm_compute. reflexivity. Qed.
+Example tamper_request_header_b1 :
+  toy_verify (with_reqh ex1 [(s2b "Accept", [s2b "*/*"])]) toy_date 0 = Invalid.
+Proof. vm_compute. reflexivity. Qed.
+Example tamper_version : toy_verify
+  {| e_ver := V1b2; e_uri := e_uri ex3; e_method := e_method ex3; e_reqh := e_reqh ex3;
+     e_status := e_status ex3; e_resph := e_resph ex3; e_sig := e_sig ex3;
+     e_payload := e_payload ex3; e_taint := false |} toy_date 0 = Invalid.
+Proof. vm_compute. reflexivity. Qed.
+Example outside_window_before : toy_verify ex3 (toy_date - 1) 999999999 = Invalid.
+Proof. vm_compute. reflexivity. Qed.
+Example outside_window_after : toy_verify ex3 toy_expires 1 = Invalid.
+Proof. vm_compute. reflexivity. Qed.
+(* b3 does not sign the request method / headers (there is no request) *)
+Example b3_method_unsigned : toy_verify (with_method ex3 (s2b "POST")) toy_date 0 = Valid toy_body.
+Proof. vm_compute. reflexivity. Qed.
+(* a header map is a finite map: its order is irrelevant *)
+Example header_order_irrelevant : toy_verify (with_resph ex3 (rev (e_resph ex3))) toy_date 0 = Valid toy_body.
+Proof. vm_compute. reflexivity. Qed.
